@@ -776,6 +776,44 @@ theorem restart_chain_equivalence_multi_unconditional {y0 y yN yN' : Sys} (h0 : 
     (histOk_append pre _ hh hy) (RM.refl hti) hs hrun
   exact ⟨ra, rb, h.obs, h.jobs⟩
 
+/-- **21. which engine runs is a function of the configuration**: the `eng_idx` a job carries for a picked ensemble
+    lists the ensemble's own engines in the order of `ensemble_engines` (whatever the order in which the names were handed
+    to `assign_engines` — the code builds them from a `set`), so the engine `select_shoot` takes first is the first one
+    the configuration lists: no dependence on set/dict iteration order, hash seed or process. -/
+theorem prep_engines_in_config_order {s s' : St} {prev : Option Nat} {o : PickOutcome} {sv : Nat} {job : Job}
+    {ds : List Draw} (h : prep s prev o sv = .ok (s', job, ds)) :
+    ∀ p ∈ job.picked, p.engIdx.map (·.1) = s'.ensEng.getD (p.ens + 1).toNat [] := by
+  rw [prep_eq_tail] at h
+  split at h
+  · exact absurd h (by simp)
+  · rename_i s1 ps ds1 _
+    unfold prepTail at h
+    split at h
+    · exact absurd h (by simp)
+    · simp only [] at h
+      split at h
+      · exact absurd h (by simp)
+      · split at h
+        · exact absurd h (by simp)
+        · simp only [Except.ok.injEq, Prod.mk.injEq] at h
+          obtain ⟨h1, h2, _⟩ := h
+          subst h1; subst h2
+          intro p hp
+          simp only [List.mem_map] at hp
+          obtain ⟨q, _, rfl⟩ := hp
+          simp only [List.map_map]
+          exact List.map_id'' (fun _ => rfl) _
+
+/-- a state in which [1+] lists two engine types, in the order (1, 0): the job picked for it carries them in that order -/
+def exTwoEng : St :=
+  { exRestored with locked0 := [], locked0Ord := [], toinitiate := -1, occ := [[-1, -1], [-1, -1]],
+                    ensEng := [[0], [0, 1], [1, 0]] }
+
+example : (match prep exTwoEng (some 0) { t := 1, e := 2 } with
+    | .ok (_, job, _) => decide (job.picked.map (fun p => p.engIdx.map (·.1)) = [[1, 0]])
+    | .error _ => false) = true := by
+  decide +kernel
+
 /-! ### non-vacuity, two workers: 3 ensembles + ghost, 8 steps, split at the second step while a job is in flight -/
 
 def mFresh : St :=
